@@ -9,6 +9,7 @@ input, dyadic values, a dedicated boundary stream, and the optimality oracle on 
 
 from __future__ import annotations
 
+import copy
 import hashlib
 import json
 import math
@@ -330,9 +331,164 @@ def correspond(ctx, model):
         check_case(ctx, model, case, run_oracle=(i % (3 * every) == 0))
         if len(ctx.violations) >= 5:
             return
+    # 2c. attribute-update histories on ONE object: prox, assign a public parameter, prox again (same and new input signature)
+    na = ctx.n(8, 60)
+    for fam in ATTR_FAMS:
+        if fam not in _families():
+            continue
+        for _ in range(na):
+            attr_update_case(ctx, model, rng, fam)
+            if len(ctx.violations) >= 5:
+                return
     # 3. which constructions advertise a prox / are rejected (exhaustive over the small configuration space)
     guard_cases(ctx, model)
     reject_cases(ctx, model)
+
+
+ATTR_FAMS = ["l2ball", "hubersep", "hubernonsep", "l1l2", "l21", "setdist", "sqsetdist", "lossgen", "sql2loss", "sql2abs", "sql2sqabs"]
+
+
+def _other(rng, xs, cur):
+    ys = [x for x in xs if x != cur]
+    return pg.pick(rng, ys)
+
+
+def _attr_plan(rng, fam, case):
+    """choose the new value of one public parameter; returns (what, P2, setter(obj), scalar history or None) or None"""
+    P = case["params"]
+    P2 = copy.deepcopy(P)
+    if fam == "l2ball":
+        P2["radius"] = _other(rng, pg.LAMS + pg.LAMS5, P["radius"])
+        return "radius", P2, (lambda f: setattr(f, "radius", float(P2["radius"]))), ("radius", P["radius"], P2["radius"])
+    if fam in ("hubersep", "hubernonsep"):
+        P2["delta"] = _other(rng, pg.DELTAS, P["delta"])
+        return "delta", P2, (lambda f: setattr(f, "delta", float(P2["delta"]))), ("delta", P["delta"], P2["delta"])
+    if fam == "l1l2":
+        P2["beta"] = _other(rng, pg.BETAS, P["beta"])
+        return "beta", P2, (lambda f: setattr(f, "beta", float(P2["beta"]))), ("beta", P["beta"], P2["beta"])
+    if fam == "l21":
+        if case.get("blocks") is not None:
+            return None
+        nd = len(case["shape"])
+        opts = [None, 0, -1] + ([1, [0, 1], [-1, -2]] if nd >= 2 else []) + ([2, [0, 2], [1, 2]] if nd >= 3 else [])
+        P2["axis"] = _other(rng, opts, P.get("axis", 0))
+        ax = P2["axis"]
+        return "l2_axis", P2, (lambda f: setattr(f, "l2_axis", tuple(ax) if isinstance(ax, list) else ax)), None
+    if fam in ("setdist", "sqsetdist"):
+        spec = P["proj"]
+        if not spec.get("via_args") or spec["kind"] not in ("ball", "point", "box"):
+            return None
+        s2 = P2["proj"]
+        if spec["kind"] == "ball":
+            s2["r"] = _other(rng, [0.5, 1.0, 2.5, 4.0], spec["r"])
+        elif spec["kind"] == "point":
+            s2["c"] = _other(rng, [0.0, 0.5, -1.0, 2.0], spec["c"])
+        else:
+            s2["lo"] = _other(rng, [-1.0, 0.0, 0.5, -2.5], spec["lo"])
+            s2["hi"] = s2["lo"] + pg.pick(rng, [0.0, 1.0, 2.5])
+        return "args", P2, (lambda f: setattr(f, "args", pc.proj_args(s2))), None
+    if fam == "lossgen" and P["inner"] in ("hubersep", "hubernonsep"):
+        P2["delta"] = _other(rng, pg.DELTAS, P["delta"])
+        return "f.delta", P2, (lambda L: setattr(L.f, "delta", float(P2["delta"]))), ("delta", P["delta"], P2["delta"])
+    if fam == "lossgen" and P["inner"] == "l2ball":
+        P2["radius"] = _other(rng, pg.LAMS5, P["radius"])
+        return "f.radius", P2, (lambda L: setattr(L.f, "radius", float(P2["radius"]))), ("radius", P["radius"], P2["radius"])
+    if fam in ("lossgen", "sql2loss", "sql2abs", "sql2sqabs"):
+        c = _other(rng, pg.SCALES, None)
+        P2["scale"], P2["rescale"] = c, []
+        return "set_scale", P2, (lambda L: L.set_scale(float(c))), ("scale", pg.eff_scale_py(P), c)
+    return None
+
+
+def attr_update_case(ctx, model, rng, fam):
+    """history on ONE object: prox at the constructor's parameter, assignment of a public parameter attribute, prox again on an
+    input of the SAME signature and on a NEW signature (float32 data); both must be the model's prox at the NEW parameter
+    (`paramAfter`), and on the live object the result must lie in the (new) domain and be no worse than the model's point."""
+    want_inner = bool(rng.random() < 0.5)
+    for _ in range(12):
+        case = pg.structured(rng, fam)
+        case["dtype"] = "float64"
+        plan = _attr_plan(rng, fam, case)
+        if plan is not None and fam == "lossgen" and want_inner and not plan[0].startswith("f."):
+            plan = None  # half of the generic-Loss histories update a parameter of the WRAPPED functional
+        if plan is not None:
+            break
+    else:
+        return
+    what, P2, setter, hist = plan
+    if hist is not None:
+        # the parameter in force after the assignment, decided by the model
+        name, p_old, p_new = hist
+        pa = common.b2f(model.call("param_after", p0=common.f2b(float(p_old)), assigns=common.fs2b([float(p_new)]))["p"])
+        if name in P2:
+            P2[name] = pa
+    new = {k: v for k, v in case.items() if not k.startswith("_")}
+    new["params"] = P2
+    new["stream"] = "attr-update"
+    v = pc.flat_value(case, "v")
+    n = v.size
+    cplx = bool(case.get("cplx"))
+    ctx.count(f"attr-update:{fam}:{what}")
+    ctx.case(dict(_desc(new), attr=what, old=json.dumps(case["params"], sort_keys=True)[:200]), "attr-" + _key(new) + _key(case))
+    with warnings.catch_warnings():
+        warnings.simplefilter("ignore")
+        try:
+            impl = pc.Impl(case)
+            warm = pg.dy(rng, n) + (1j * pg.dy(rng, n) if cplx else 0)
+            impl.prox_flat(warm)  # traces / caches whatever the object caches for this input signature
+            impl.prox_flat(v)
+            setter(impl.f)
+            p_same = np.asarray(impl.prox_flat(v))
+            p_new_sig = None
+            if impl.f_orig is None:  # functionals: a signature not seen before the update (float32 data)
+                c32 = dict(new, dtype="float32")
+                p_new_sig = np.asarray(pc.from_scico(impl.f.prox(pc.to_scico(c32, v), impl.lam_arg())))
+        except common.Infra:
+            raise
+        except Exception as e:  # noqa: BLE001
+            if not _raised_in_scico(e):
+                raise
+            ctx.violation({"kind": "failing-input", "op": f"prox.{fam}.attr-update", "case": _public(new), "old_params": case["params"],
+                           "failing": {"reason": f"the implementation raised after the assignment of {what}", "exception": f"{type(e).__name__}: {str(e)[:300]}"}},
+                          True, f"prox.{fam}: implementation raised after an attribute update")
+            return
+        p_model, margin = pc.model_eval(model, new)
+    if margin is not None and 0 < margin < 1e-6:
+        ctx.count("discarded:near-tie")
+        return
+
+    def agree(a, b, rtol):
+        return a.shape == b.shape and common.allclose(np.real(a), np.real(b), k=max(n, 1), rtol=rtol) and (
+            not cplx or common.allclose(np.imag(a), np.imag(b), k=max(n, 1), rtol=rtol))
+
+    def orc(_c, p_bad=p_same):
+        # the property on the LIVE object (a fresh object would hide the history): domain and objective against the model's point
+        with warnings.catch_warnings():
+            warnings.simplefilter("ignore")
+            pb = np.asarray(p_bad, dtype=np.complex128 if cplx else np.float64)
+            fp = impl.value(pb)
+            if not math.isfinite(fp):
+                fp = impl.value(pb * (1.0 - 1e-5))
+            if not math.isfinite(fp):
+                return {"reason": f"after `{what}` was assigned, prox returns a point outside the domain of the functional (f(p) = inf on the same object)",
+                        "old_params": case["params"], "new_params": P2, "v": pc._js(v), "lam": case["lam"], "p": pc._js(pb)}
+            Fi, Fm = impl.objective(pb, v), impl.objective(np.asarray(p_model), v)
+            if Fm < Fi - 1e-7 * (1.0 + abs(Fi) + abs(Fm)):
+                return {"reason": f"after `{what}` was assigned, the prox at the new parameter has a lower objective on the same object",
+                        "old_params": case["params"], "new_params": P2, "v": pc._js(v), "lam": case["lam"], "p": pc._js(pb),
+                        "objective(p)": Fi, "better_x": pc._js(p_model), "objective(x)": Fm}
+        return None
+
+    if not agree(p_same, p_model, 1e-9):
+        ctx.count(f"disagree:{fam}:attr-update")
+        ctx.disagree(f"prox.{fam}.attr-update.same-signature", dict(_public(new), old_params=case["params"], attr=what),
+                     pc._js(p_same), pc._js(p_model), oracle=orc, note=f"prox after assigning {what} on the same object (input signature seen before)")
+        return
+    if p_new_sig is not None and not agree(p_new_sig, p_model, 1e-4):
+        ctx.count(f"disagree:{fam}:attr-update")
+        ctx.disagree(f"prox.{fam}.attr-update.new-signature", dict(_public(new), old_params=case["params"], attr=what),
+                     pc._js(p_new_sig), pc._js(p_model), oracle=lambda c: orc(c, p_new_sig),
+                     note=f"prox after assigning {what} on the same object (float32 input: signature not seen before)")
 
 
 def grid_cases():
